@@ -181,7 +181,7 @@ def _panic_line(text):
 def _short(ev):
     if not ev:
         return "<end of trace>"
-    keys = ["e", "who", "api", "cid", "status", "et", "kind", "inv", "pl", "base", "gen", "pk", "caller", "k", "out", "body", "tk", "phase"]
+    keys = ["e", "who", "api", "cid", "status", "et", "kind", "inv", "pl", "base", "gen", "pk", "caller", "k", "out", "body", "tk", "phase", "reason", "net"]
     return json.dumps({k: ev[k] for k in keys if k in ev and ev[k] not in ("", 0, [], None)})
 
 
